@@ -763,6 +763,122 @@ def regional_histories(draw):
     return {"history": h}
 
 
+# -- corpus-driven histories ------------------------------------------------------------------------------
+
+_CORPUS = {}
+
+
+def _corpus_by_lang():
+    """language -> [strings] from the corpus extracted from the repository's tests (3,140 strings, ~100 languages)"""
+    if not _CORPUS:
+        import json
+        with open(os.path.join(VERIF, "corpus", "strings.json")) as f:
+            for e in json.load(f):
+                lang = e["locale"].split("-")[0] if e["locale"] not in ("sr-Latn", "sr-Cyrl", "zh-Hans", "zh-Hant", "uz-Latn", "uz-Cyrl", "uz-Arab") else e["locale"]
+                if 0 < len(e["s"]) <= 60:
+                    _CORPUS.setdefault(lang, []).append(e["s"])
+    return _CORPUS
+
+
+@st.composite
+def corpus_histories(draw):
+    """A call on a corpus string (its own language, a language list that contains it, or autodetection), then 1-3 calls on other
+    corpus strings of the same or another language under the same or a one-key-variant settings dict, then the first call
+    again — through parse, a long-lived parser or search_dates.  The fixed string pools above are hand-picked; this stage
+    carries the history shapes over the strings and ~100 languages of the repository's own tests."""
+    by = _corpus_by_lang()
+    langs = sorted(by)
+    L = draw(st.sampled_from(langs))
+    s1 = draw(st.sampled_from(by[L]))
+    S1 = copy.deepcopy(draw(st.sampled_from(SETTINGS[2:] + DEFAULT_EQUIV)))
+    how = draw(st.integers(0, 9))
+    if how <= 5:
+        La = [L]
+    elif how <= 7:
+        La = draw(st.permutations([L, draw(st.sampled_from(["en", "fr", "de", "es", "ru", "tl", "ja"]))]))
+        La = list(dict.fromkeys(La))
+    else:
+        La = None
+        S1 = draw(st.sampled_from([None, None, SETTINGS[9]]))  # autodetection: few settings hashes (cost)
+    use_instance = draw(st.booleans()) and La is not None
+    h = []
+    if use_instance:
+        h.append(["new_parser", 0, La, None, None, draw(st.booleans()), copy.deepcopy(S1)])
+        h.append(["use_parser", 0, s1, None])
+    else:
+        h.append(["parse", s1, None, La, None, None, copy.deepcopy(S1)])
+    for _ in range(draw(st.integers(1, 3))):
+        L2 = draw(st.sampled_from([L, L, draw(st.sampled_from(langs))]))
+        s2 = draw(st.sampled_from(by[L2]))
+        S2 = _variant(draw, S1) if La is not None else draw(st.sampled_from([None, None, SETTINGS[9]]))
+        k = draw(st.integers(0, 5))
+        if k == 0:
+            h.append(["search", "We met on " + s2 + " and left. " + s1, [L2], S2, draw(st.booleans())])
+        elif k == 1:
+            h.append(["new_parser", 1, [L2], None, None, False, S2])
+            h.append(["use_parser", 1, s2, None])
+        else:
+            h.append(["parse", s2, None, [L2] if draw(st.integers(0, 4)) else La, None, None, S2])
+    if use_instance:
+        h.append(["use_parser", 0, s1, None])
+    else:
+        h.append(["parse", s1, None, La, None, None, copy.deepcopy(S1)])
+    return {"history": h}
+
+
+# -- parse first, then a language-detecting search ----------------------------------------------------------
+
+_TEXTS_LANG = []
+
+
+def _texts_lang():
+    """[(text, language)] — the search texts of the repository's tests, tagged once (offline, with the pinned tree) with the
+    language search_dates detects for them; the tag only steers the generator (which strings are parsed first)."""
+    if not _TEXTS_LANG:
+        import json
+        with open(os.path.join(VERIF, "corpus", "texts_lang.json")) as f:
+            for e in json.load(f):
+                if e["lang"] and len(e["text"]) <= 300:
+                    _TEXTS_LANG.append((e["text"], e["lang"]))
+    return _TEXTS_LANG
+
+
+@st.composite
+def detect_histories(draw):
+    """One to three parse / get_date_data calls on strings of language X (X selected or autodetected, NORMALIZE on/off), and
+    only then the process's first language-detecting search_dates call (no languages, or two-three candidates) on a text in X,
+    repeated once.  Per-locale attributes that both the parse side and the detection side build lazily (word characters,
+    splitters, dictionaries) are built by whichever comes first: the search must not care.  (The other search scenarios start
+    with the search, or run in a warmed process where detection has happened before on both sides of the comparison.)"""
+    by = _corpus_by_lang()
+    text, X = draw(st.sampled_from(_texts_lang()))
+    pool = by.get(X) or by.get(X.split("-")[0]) or ["12 March 2020"]
+    h = []
+    for i in range(draw(st.integers(1, 3))):
+        S = copy.deepcopy(draw(st.sampled_from([None, None, None, {"NORMALIZE": True}, {"NORMALIZE": False}, {"SKIP_TOKENS": []}])))
+        s_ = draw(st.sampled_from(pool + [text[:60]]))
+        k = draw(st.integers(0, 5))
+        if k == 0:
+            h.append(["parse", s_, None, None, None, None, None])  # autodetection, default settings
+        elif k == 1:
+            h.append(["new_parser", i, [X], None, None, False, S])
+            h.append(["use_parser", i, s_, None])
+        else:
+            h.append(["parse", s_, None, [X], None, None, S])
+    others = ["en", "es", "fr", "de", "it", "lt", "vi", "mn", "lb", "hsb", "mua", "ru", "uk", "pt", "pl", "cs", "ro", "sq", "be", "fi", "hu"]
+    k = draw(st.integers(0, 3))
+    if k == 0:
+        langs = None
+    else:
+        langs = list(dict.fromkeys(draw(st.permutations([X] + draw(st.lists(st.sampled_from(others), min_size=1, max_size=2))))))
+    Ss = copy.deepcopy(draw(st.sampled_from([None, None, None, {"NORMALIZE": False}, {"DATE_ORDER": "DMY"}])))
+    add = draw(st.booleans())
+    h.append(["search", text, langs, Ss, add])
+    if draw(st.booleans()):
+        h.append(["search", text, langs, copy.deepcopy(Ss), add])
+    return {"history": h}
+
+
 # -- model validation with real interpreters -----------------------------------------------------------
 
 def extra_phase(ctx, known, total):
@@ -814,6 +930,8 @@ def extra_phase(ctx, known, total):
 def stages(ctx):
     return [Stage("triples_cold", "hyp", strategy=triples(), examples=ctx.n(160, 4000)),
             Stage("histories_cold", "hyp", strategy=histories(ctx.n(10, 50)), examples=ctx.n(48, 1200)),
-            Stage("regional_cold", "hyp", strategy=regional_histories(), examples=ctx.n(800, 12000)),
+            Stage("detect_cold", "hyp", strategy=detect_histories(), examples=ctx.n(160, 6000)),
+            Stage("regional_cold", "hyp", strategy=regional_histories(), examples=ctx.n(600, 12000)),
             Stage("triples_warm", "hyp", strategy=triples(), examples=ctx.n(1600, 40000), check=check_warm),
-            Stage("histories_warm", "hyp", strategy=histories(ctx.n(14, 50)), examples=ctx.n(200, 8000), check=check_warm)]
+            Stage("histories_warm", "hyp", strategy=histories(ctx.n(14, 50)), examples=ctx.n(200, 8000), check=check_warm),
+            Stage("corpus_histories_warm", "hyp", strategy=corpus_histories(), examples=ctx.n(600, 20000), check=check_warm)]
